@@ -276,6 +276,84 @@ add('c18-repair-boundary-valueerror', 'C18', 'repair', [(BUILDER, """           
                     raise FormulaError()""")],
     clears='formulas/parser.py::Parser.ast::escapes ValueError from formulas/builder.py::AstBuilder.append')
 
+# ---------------------------------------------------------------- C07
+RANGES = 'formulas/ranges.py'
+CELL = 'formulas/cell.py'
+add('c07-xfilter-fix-reverted', 'C07', 'break', [(LOOK, """    b = np.array(condition, object)
+    a_shp = array.shape""", """    b = np.asarray(condition, object)
+    a_shp = array.shape""")], expect='C07.nomut')
+add('c07-mmult-zeroes-blanks-in-place', 'C07', 'break', [(MATH, """def xmmult(x, y):
+    raise_errors(x, y)
+""", """def xmmult(x, y):
+    raise_errors(x, y)
+    x[x == ''] = 0
+""")], expect='C07.nomut')
+add('c07-replace-empty-in-place', 'C07', 'break', [(F, """        if obj in x:
+            x = np.where(obj == x, empty, x).view(x.__class__)""", """        if obj in x:
+            x[obj == x] = empty""")], expect='C07.nomut')
+add('c07-sort-parser-sorts-argument', 'C07', 'break', [(STAT, """    values = np.array(tuple(flatten(
+        values, lambda v: not isinstance(v, (str, bool))
+    )), float)
+    values.sort()""", """    values = np.asarray(values)
+    values.sort()""")], expect='C07.nomut')
+add('c07-helper-mutates-via-callee', 'C07', 'break', [(MATH, """def xsumproduct(*args):
+    # Check all arrays are the same length
+    # Excel returns #VAlUE! error if they don't match
+    raise_errors(args)
+""", """def _zero_blanks(a):
+    a[a == ''] = 0
+    return a
+
+
+def xsumproduct(*args):
+    # Check all arrays are the same length
+    # Excel returns #VAlUE! error if they don't match
+    raise_errors(args)
+    args = [_zero_blanks(np.asarray(a)) for a in args]
+""")], expect='C07.nomut')
+add('c07-format-output-caches-on-rng', 'C07', 'break', [(CELL, """def format_output(rng, value):
+    return Ranges().set_value(rng, value)""", """def format_output(rng, value):
+    rng['last'] = value
+    return Ranges().set_value(rng, value)""")], expect='C07.nomut')
+add('c07-value-reset-dropped', 'C07', 'break', [(RANGES, """    def set_value(self, rng, value=sh.EMPTY):
+        self._value = sh.NONE
+""", """    def set_value(self, rng, value=sh.EMPTY):
+""")], expect='C07.cache')
+add('c07-args-writes-shared-values', 'C07', 'break', [(CELL, """        inputs = {
+            k: hasattr(r, 'ranges') and Ranges(r.ranges) or r
+            for k, r in self.func.inputs.items()
+        }""", """        inputs = dict(self.func.inputs)""")], expect='C07.nomut')
+add('c07-from-dict-no-inverse', 'C07', 'break', [(EXCEL, """        if assemble:
+            self.assemble()
+        self.inverse_references()
+        return self
+
+    def write(""", """        if assemble:
+            self.assemble()
+        return self
+
+    def write(""")], expect='C07.paths')
+add('c07-finish-inverse-conditional', 'C07', 'break', [(EXCEL, """        if circular:
+            self.solve_circular()
+        self.inverse_references()""", """        if circular:
+            self.solve_circular()
+            self.inverse_references()""")], expect='C07.paths')
+add('c07-inv-data-key-renamed-writer', 'C07', 'break', [(CELL, """                d['inv-data'] = set(self.outputs)""", """                d['inv_data'] = set(self.outputs)""")], expect='C07.names')
+add('c07-benign-copy-then-write', 'C07', 'benign', [(MATH, """def xmmult(x, y):
+    raise_errors(x, y)
+""", """def xmmult(x, y):
+    raise_errors(x, y)
+    x = np.array(x, object)
+    x[x == ''] = 0
+""")])
+add('c07-benign-local-accumulator', 'C07', 'benign', [(MATH, """def xlcm(*args):
+    return _xgcd(np.lcm.reduce, args)""", """def xlcm(*args):
+    seen = []
+    for a in args:
+        seen.append(a)
+    return _xgcd(np.lcm.reduce, tuple(seen))""")])
+add('c07-benign-key-renamed-consistently', 'C07', 'benign', [(CELL, """                d['inv-data'] = set(self.outputs)""", """                d['inv-links'] = set(self.outputs)"""), (EXCEL, """                        d['inv-data'] = {out}""", """                        d['inv-links'] = {out}"""), (EXCEL, """            inp.update(nodes.get(i, {}).get('inv-data', ()))""", """            inp.update(nodes.get(i, {}).get('inv-links', ()))""")])
+
 if __name__ == '__main__':
     here = os.path.dirname(os.path.abspath(__file__))
     ids = [v['id'] for v in V]
